@@ -154,6 +154,7 @@ def run_check(prop_id, tier, harnesses, level_explanation, trusted_base=(), extr
             real = None
             if h.real_replay is not None:
                 try:
+                    p['harness'] = h.name
                     real = h.real_replay(p)
                 except Exception as ex:
                     real = (False, f'real replay raised {ex!r}')
